@@ -152,8 +152,43 @@ def rule_regs(cx, tier):
             if esc_bb is None or esc_bb in avoid:
                 break
             avoid.add(esc_bb)
+        # ---- base clause: the length an exit truncates to was read before the first register was pushed
+        du = cx.du(fn)
+        bases_checked = 0
+        for c in fn.calls():
+            if c.short != VM + "truncate_registers" or len(c.args) < 2:
+                continue
+            l = op_base(c.args[1])
+            root = du.root(l, through_calls=("Try::branch", "Result::<T, E>::unwrap", "Clone::clone")) if l is not None else None
+            for _ in range(4):
+                # through tuples built and taken apart again: `let (a, b) = (x?, y)`
+                if root is not None and root[0] == "field" and root[1][0] == "rv" and root[1][1][0] == "agg" \
+                        and root[1][1][1][0] == "tuple" and root[2] and str(root[2][0]).isdigit() \
+                        and int(root[2][0]) < len(root[1][1][2]):
+                    l2 = op_base(root[1][1][2][int(root[2][0])])
+                    root = du.root(l2, through_calls=("Try::branch", "Result::<T, E>::unwrap", "Clone::clone")) if l2 is not None else None
+                else:
+                    break
+            if root is None:
+                continue
+            if root[0] == "field":
+                root = root[1]
+            if root[0] != "call":
+                continue
+            bc = root[1]
+            if bc.bb not in cfg.reach:
+                continue
+            bases_checked += 1
+            r.instances += 1
+            earlier = [g for g in gcs if g.bb != bc.bb and bc.bb in cfg.reachable_after(g.bb) and not cfg.dominates(bc.bb, g.bb)]
+            if earlier:
+                r.nontrivial += 1
+                r.add(Finding("R-REGS", fn.qual, f"base:{bc.short.rsplit('::', 1)[-1]}@{c.short.rsplit('::', 1)[-1]}:inner",
+                              f"the exit at line {c.line} truncates the register stack to a base read at line {bc.line}, "
+                              f"after registers had already been pushed (line {earlier[0].line}): those registers stay on the "
+                              f"stack of the runtime after the failed call", fn.file, c.line))
         r.sample({"fn": fn.qual, "growth_sites": len(gcs), "truncate_sites": len(tb), "escaping_exits": found,
-                  "at": fn.where()})
+                  "truncation_bases_checked": bases_checked, "at": fn.where()})
     return r
 
 
@@ -862,7 +897,36 @@ def rule_import(cx, tier):
             g = _recv_guard(cx, fn, c)
             if g is not None and g.bb in guards:
                 writes.append(c)
-    require(len(writes) >= 3, f"R-IMPORT: expected ≥3 module_cache writes in run_import, found {len(writes)}")
+    # the module's top level / tests / @main run inside a closure (or a private helper) of run_import: a cache write there
+    # happens before the outcome of the import is known
+    inner = []
+    bodies = list(cx.F.closures_of(fn))
+    run_name = cx.need_fn(VM + "run").name
+    reach_run = cx.cg.reach_set({run_name})
+    for c in fn.calls():
+        for t in cx.cg.targets(c):
+            tf = cx.F.fns.get(t)
+            if tf is not None and tf.qual.startswith(VM) and tf.vis != "public" and t in reach_run and tf is not fn \
+                    and tf.qual != VM + "run" and tf not in bodies:
+                bodies.append(tf)
+    for g in bodies:
+        gg = {c.bb for c in _cache_guard_calls(cx, g, True)}
+        for c in g.calls():
+            if c.short.rsplit("::", 1)[-1] in ("insert", "remove", "shift_remove", "swap_remove", "clear", "retain"):
+                gd = _recv_guard(cx, g, c)
+                if gd is not None and gd.bb in gg:
+                    inner.append((g, c))
+    require(len(writes) + len(inner) >= 3,
+            f"R-IMPORT: expected ≥3 module_cache writes in run_import, found {len(writes)} (+{len(inner)} in the module body)")
+    for g, c in inner:
+        r.instances += 1
+        r.nontrivial += 1
+        if c.short.endswith("::insert"):
+            r.add(Finding("R-IMPORT", fn.qual, "cache:completed-before-outcome",
+                          f"the module cache is written at line {c.line} while the module is still being run (inside "
+                          f"{'the module body closure' if g.kind == 'Closure' else g.qual[len(VM):]}): an entry that says "
+                          f"'imported' exists before the import has succeeded, so a failure after this point (@main, a later "
+                          f"test) leaves a half-initialised module that the next import silently returns", g.file, c.line))
     # the cache also records which imports are in progress (None placeholders of the importers up the chain): a failed import
     # removes its own entry, never entries in bulk
     for c in writes:
@@ -1987,4 +2051,111 @@ def rule_builders_on_error(cx, tier):
                                   g.file, u.line))
     r.floor("unwinder call x builder stack pairs", n, 2)
     r.analysed = {"pairs": n, "functions": [g.qual[len(VM):] for g in subjects]}
+    return r
+
+
+# ---------------------------------------------------------------------------------------------
+# R-UNWIND-NO-RESULT (C04): frames discarded by the unwinder deliver no result to the frame that survives
+
+def _clears_return_register(fn, du):
+    """blocks of fn that store `None` into a `.return_value_register` field"""
+    out = set()
+    for b in fn.blocks:
+        if b.cleanup:
+            continue
+        for st in b.stmts:
+            if st[0] != "a" or "return_value_register" not in place_fields(st[1]):
+                continue
+            rv = st[2]
+            for _ in range(4):     # through plain moves of a local
+                l = op_local(rv[1]) if rv[0] == "use" else None
+                d = du.single_def(l) if l is not None else None
+                if not (d and d[2] == "assign"):
+                    break
+                rv = d[3]
+            if rv[0] == "agg" and not rv[2] and "None" in repr(rv):
+                out.add(b.idx)
+    return out
+
+
+def _derives_from_field(fn, du, local, field, limit=60):
+    """is `local` computed (through assignments and calls, any number of definitions) from a place with `.field`?"""
+    from ..mir import rv_places
+    seen, work = set(), [local]
+    while work and len(seen) < limit:
+        l = work.pop()
+        if l is None or l in seen:
+            continue
+        seen.add(l)
+        for d in du.defs.get(l, []):
+            if d[2] in ("assign", "partial") and not hasattr(d[3], "args"):
+                places = rv_places(d[3])
+            else:
+                places = [op_place(a) for a in d[3].args]
+            for pl in places:
+                if pl is None:
+                    continue
+                if field in place_fields(pl):
+                    return True
+                work.append(pl[0])
+    return False
+
+
+def rule_unwind_no_result(cx, tier):
+    r = RuleResult("R-UNWIND-NO-RESULT",
+                   "a frame that the unwinder discards delivers no result: between the raise and the catch point no "
+                   "register of the surviving frame is written (the catch register is written afterwards, by the "
+                   "interpreter loop).  `v = f()` compiles to a Call whose result register is v's own register, so a "
+                   "frame pop that stores its (null) 'return value' there changes a variable between the throw point "
+                   "and the catch block")
+    U = cx.need_fn(VM + "pop_call_stack_on_error")
+    cfg = cx.cfg(U)
+    cg = cx.cg
+    writers = {f.name for f in cx.F.fns.values()
+               if f.qual in (VM + "set_register",) }
+    require(writers, "R-UNWIND-NO-RESULT: KotoVm::set_register not found")
+    # direct element writes `self.registers[i] = ..` count too: functions (other than set_register) of the VM that call IndexMut on the value stack
+    can_write = cg.reach_set(writers)
+    du = cx.du(U)
+    clears = _clears_return_register(U, du)
+    dom = cfg.dominators()
+    n = 0
+    for c in U.calls():
+        if c.bb not in cfg.reach or U.blocks[c.bb].cleanup:
+            continue
+        tgts = [t for t in cg.targets(c) if t in cx.F.fns]
+        wt = [t for t in tgts if t in can_write]
+        if not wt:
+            continue
+        n += 1
+        r.instances += 1
+        r.nontrivial += 1
+        t = cx.F.fns[wt[0]]
+        path = cg.path(t.name, writers) or [t.name]
+        # (a) the caller's result register is withdrawn before the pop, on every path to it; a path around the store is
+        #     fine when the branch that takes it tests the shape of the call stack (`if let [.., caller, _]`, `len() >= 2`,
+        #     `get_mut(len - 2)`: no caller, nothing to write to)
+        shape_tests = {b.idx for b in U.blocks if not b.cleanup and b.term[0] == "switch"
+                       and _derives_from_field(U, du, op_base(b.term[1]), "call_stack")
+                       and any(cfg.dominates(b.idx, cb) for cb in clears)} if clears else set()
+        cleared = bool(clears) and cfg.find_path(0, lambda b: b == c.bb, avoid=clears | shape_tests,
+                                                 include_src_succs=True) is None
+        # (b) the callee takes a flag that the unwinder fixes to a constant: the write may be conditional on it -- not decided
+        const_flag = any(op_const(a) is not None and U.crate.tstr(c.arg_ty(i)) == "bool" for i, a in enumerate(c.args))
+        r.sample({"call": t.qual, "line": c.line, "reaches_set_register_via": [cx.F.fns[p].qual for p in path],
+                  "result_register_withdrawn_before": cleared, "constant_flag_argument": const_flag})
+        if cleared:
+            continue
+        if const_flag:
+            r.undecided.append({"fn": U.qual, "call": t.qual, "why": "constant bool argument may disable the write"})
+            continue
+        r.add(Finding("R-UNWIND-NO-RESULT", U.qual, f"{t.qual[len(VM):] if t.qual.startswith(VM) else t.qual}:writes-result",
+                      f"the unwinder discards a frame with {t.qual[len(VM):] if t.qual.startswith(VM) else t.qual}, which can "
+                      f"store a return value into the calling frame's result register ({' -> '.join(cx.F.fns[p].qual.split('::')[-1] for p in path)}); "
+                      f"the call's result register is an ordinary local in `v = f()`, so v is null in the catch block "
+                      f"although the assignment never happened",
+                      U.file, c.line, [cx.F.fns[p].qual for p in path]))
+    r.analysed = {"unwinder": U.qual, "calls_that_can_reach_set_register": n,
+                  "blocks_withdrawing_the_result_register": len(clears)}
+    r.floor("frame-discarding calls in the unwinder", n, 1)
     return r
